@@ -16,7 +16,10 @@ MANIFEST = dict(
           "proved on this run). Tie: after EVERY step of generated histories (parsed and API-built starts, 15 call kinds (incl. clear(decompose=True) and the deprecated spellings replaceWith / replace_with_children / replaceWithChildren), "
           "arguments fresh / plain str / from anywhere in the forest incl. same parent, other trees, whole BeautifulSoup "
           "objects), every pointer and iterator of every live element is compared with the model, and the property statement "
-          "is evaluated directly on the real objects."),
+          "is evaluated directly on the real objects. Copies (copy-histories stream): copy.copy / copy.deepcopy / __copy__ of elements anywhere in "
+          "the forest are steps of the histories (Model/HeapCopy.lean), later steps use the nodes of the copy; right after every copy the "
+          "copy clause is evaluated directly: the copy has no parent, no siblings, consists of new objects only, has no link out of itself, "
+          "is isomorphic to its source, and no pointer of any other element has changed."),
     design="7/C01",
     note=("Parse-time linkage (object_was_parsed/_linkage_fixer) is covered by C03's model; here parsed starts are rebuilt in the "
           "model by appends and compared pointer by pointer. The BeautifulSoup root's freedom to stand outside the element "
@@ -26,7 +29,14 @@ MANIFEST = dict(
 )
 
 
-def run_history(ctx: Ctx, rng, idx: int, steps: int, iters: bool, stream: str):
+def op_labels(op: str):
+    """the node labels an op names (target and arguments)"""
+    return [a for fld in op.split(":")[1:] for a in fld.split(",")]
+
+
+def run_history(ctx: Ctx, rng, idx: int, steps: int, iters: bool, stream: str, copies: float = 0.0):
+    """copies > 0: that share of the steps copies an element (`cp`); non-trivial is then: a node of a copy was the target or an
+    argument of a later step"""
     parsed = rng.random() < 0.5
     w, kinds, prefix = heapsim.make_world(rng, parsed)
     stats = Counter()
@@ -42,14 +52,24 @@ def run_history(ctx: Ctx, rng, idx: int, steps: int, iters: bool, stream: str):
         if msg:
             ctx.violation("parsed tree is not one consistent tree: " + msg, case={"kinds": kinds, "ops": ops, "parsed": True}, stream=stream)
     nontrivial = False
+    copy_used = False
     for s in range(steps):
-        op = heapsim.gen_op(rng, w, stats)
+        op = heapsim.gen_op(rng, w, stats, copies=copies)
         if op is None:
             break
         ops.append(op)
+        if copies and any(a in w.copy_labels for a in op_labels(op)):
+            copy_used = True
+            ctx.count("cp:later-step-uses-a-node-of-a-copy")
         st = w.apply(op)
         ctx.count("op:" + op.split(":")[0])
         ctx.count("outcome:" + st)
+        if op.startswith("cp:") and st == "ok" and w.copy_oracle_msg:
+            real_dumps.append(("ok", w.dump(iters)))
+            ctx.violation("a copy is not a self-contained new tree beside an untouched forest: " + w.copy_oracle_msg,
+                          case={"kinds": kinds, "ops": ops, "parsed": parsed, "twin": getattr(w, "twin_choices", None)},
+                          observed=w.copy_oracle_msg, stream=stream)
+            break
         if st != "ok":
             real_dumps.append((st, None))
             # a call that raises is still a call: it must not leave the forest half-edited
@@ -68,8 +88,14 @@ def run_history(ctx: Ctx, rng, idx: int, steps: int, iters: bool, stream: str):
         ctx.count(k, v)
         if k in ("arg:same-parent", "arg:elsewhere", "arg:soup", "arg:repeat") and v:
             nontrivial = True
+    if copies:
+        nontrivial = copy_used
+        for k, v in w.call_forms.items():
+            if k.startswith("cp"):
+                ctx.count("cp:form-" + ["copy.copy", "copy.deepcopy", "__copy__"][int(k[2:])], v)
     line = f"c01 run {kinds} {';'.join(ops) if ops else '-'} {'all' if iters else 'ptr'}"
-    return line, real_dumps, {"kinds": kinds, "ops": ops, "parsed": parsed, "twin": getattr(w, "twin_choices", None)}, soups, nontrivial
+    # (the copies of BeautifulSoup objects are BeautifulSoup objects: the same freedom; labels are never reused, so the final set serves every step)
+    return line, real_dumps, {"kinds": kinds, "ops": ops, "parsed": parsed, "twin": getattr(w, "twin_choices", None)}, soups | w.soup_labels, nontrivial
 
 
 def compare(ctx: Ctx, reply: str, real_dumps, case, soups, iters, stream):
@@ -115,30 +141,49 @@ def run(ctx: Ctx):
                 "2-6 strings, 0-2 comments); 15 call kinds (incl. clear(decompose=True) and the deprecated spellings replaceWith / replace_with_children / replaceWithChildren), 40% multi-argument, arguments: plain str / repeated / same-parent / "
                 "elsewhere in the forest / roots and fresh / whole BeautifulSoup; after every step all pointers and iterators of "
                 "all live elements vs the Lean model, and the direct oracle. non-trivial = a history in which an argument came "
-                "from the same parent, from elsewhere in the forest, was a BeautifulSoup object or was repeated")
+                "from the same parent, from elsewhere in the forest, was a BeautifulSoup object or was repeated. "
+                "copy-histories stream: the same histories with 13% of the steps a copy (copy.copy / copy.deepcopy / __copy__, subtrees of <= 12 "
+                "nodes) of any live element incl. BeautifulSoup objects, nodes of extracted fragments and of earlier copies; same per-step comparison "
+                "plus the direct copy oracle (detached, new objects only, no link out of the copy, isomorphic, everything else untouched); "
+                "non-trivial there = a node of a copy was the target or an argument of a later step")
     ctx.assumptions = ["calls that would put an element beneath itself are never generated (outside the quantifier)",
                        "positions are any Python integers: negative ones count from the end as in list.insert (Model/Heap.lean normPos)"]
     parsed_documents(ctx)
     destroy_stream(ctx)
-    n_hist = ctx.n(300, 4000)
-    steps = ctx.n(25, 40)
+    history_stream(ctx, "histories", "hist", "H", ctx.n(300, 4000), ctx.n(25, 40), 3)
+    copy_stream(ctx)
+
+
+def history_stream(ctx: Ctx, stream: str, rng_name: str, key: str, n_hist: int, steps: int, n_samples: int, copies: float = 0.0):
     lines, reals, cases, soupss, = [], [], [], []
     drv = Driver()
     batch = 100
     for i in range(n_hist):
-        rng = ctx.rng("hist", i)
+        rng = ctx.rng(rng_name, i)
         iters = True
-        line, rd, case, soups, nt = run_history(ctx, rng, i, steps, iters, "histories")
+        line, rd, case, soups, nt = run_history(ctx, rng, i, steps, iters, stream, copies=copies)
         case["seed_index"] = i
-        ctx.case(("H", i) if nt else None, sample=case if i < 3 else None)
+        ctx.case((key, i) if nt else None, sample=case if i < n_samples else None)
         lines.append(line); reals.append(rd); cases.append(case); soupss.append(soups)
         if len(lines) == batch or i == n_hist - 1:
             replies = drv.ask(lines)
             for rep, rd2, c, sp in zip(replies, reals, cases, soupss):
-                compare(ctx, rep, rd2, c, sp, True, "histories")
+                compare(ctx, rep, rd2, c, sp, True, stream)
             lines, reals, cases, soupss = [], [], [], []
         if len([v for v in ctx.violations if not v.get("no_failing_input_found")]) >= 5:
             break
+    if lines:
+        for rep, rd2, c, sp in zip(drv.ask(lines), reals, cases, soupss):
+            compare(ctx, rep, rd2, c, sp, True, stream)
+
+
+def copy_stream(ctx: Ctx):
+    """copy-histories: the same histories with about 13 % of the steps a copy (copy.copy / copy.deepcopy / __copy__) of a random live
+    element - tag, string, comment, BeautifulSoup object, attached or a root, inside an extracted fragment, a node of an earlier copy;
+    the clone's nodes are targets and arguments of later steps like every other element (moves between an original and its copy
+    included). After every step: all pointers and iterators vs the model (Model/HeapCopy.lean for `cp`), the direct oracle, and right
+    after a copy the copy clause (heapsim.copy_oracle)."""
+    history_stream(ctx, "copy-histories", "copyhist", "CP", ctx.n(150, 2000), ctx.n(25, 40), 1, copies=0.13)
 
 
 def destroy_stream(ctx: Ctx):
@@ -277,6 +322,8 @@ def replay(path):
     for i, op in enumerate(c["ops"]):
         st = w.apply(op)
         msg = heapsim.oracle_c01(w) if st == "ok" else None
+        if st == "ok" and op.startswith("cp:") and w.copy_oracle_msg:
+            msg = "a copy is not a self-contained new tree beside an untouched forest: " + w.copy_oracle_msg
         print(i, op, st, msg or "")
         if msg:
             print("property C01 violated:", msg)
